@@ -77,6 +77,7 @@ def main(tier, seed, replay=None):
     for i, c in enumerate(cases):
         c["id"] = i
     total_terms = 0
+    ndropped = 0
     relation = {"N<M+P": 0, "N=M+P": 0, "N>M+P": 0}
     out_hist = {}
     codes_hist = {}
@@ -126,6 +127,21 @@ def main(tier, seed, replay=None):
                 if t is not None:
                     vterms.append(t)
                     vidx.append((c, r))
+                else:
+                    # nothing drops out silently: when some statistic is not finite (e.g. a correlation 0/0) the exact comparison has no
+                    # term for this case; the defining identities of THIS property are then evaluated directly on the reported values
+                    # (exact rational arithmetic on the implementation's own weighted residuals)
+                    ndropped += 1
+                    sx = st["stats"]
+                    if all(is_finite_hex(h) for h in sx["wres"]) and sx["dof"] > 0:
+                        want = sum(frac(h) ** 2 for h in sx["wres"]) / sx["dof"]
+                        tolr = Fraction(1, 10 ** 9) if c["scalar"] == "f64" else Fraction(1, 10 ** 3)
+                        if not is_finite_hex(sx["chi2"]) or abs(frac(sx["chi2"]) - want) > tolr * want:
+                            run.violation("statistics (%s): reduced chi^2 (%r) is not ||r_w||^2 / (N - M - P) = %r of the reported weighted residuals"
+                                          % (profile, unhx(sx["chi2"]), float(want)), {"case": c, "profile": profile, "stats": sx})
+                        elif not is_finite_hex(sx["rse"]) or abs(frac(sx["rse"]) ** 2 - frac(sx["chi2"])) > 4 * tolr * frac(sx["chi2"]):
+                            run.violation("statistics (%s): regression standard error (%r) is not the square root of the reduced chi^2 (%r)"
+                                          % (profile, unhx(sx["rse"]), unhx(sx["chi2"])), {"case": c, "profile": profile, "stats": sx})
         ocodes = coq_eval("C12", statsrun.HEADER_OUT, oterms)
         for (c, r, imp), mo, t in zip(oidx, ocodes, oterms):
             if mo == 0:
@@ -153,7 +169,7 @@ def main(tier, seed, replay=None):
                 "degrees of freedom, weighted residuals, reduced chi^2, regression standard error against Model/Numeric.spec_stats in "
                 "exact arithmetic, weighted residuals against the final residuals of the fit" % (COMBOS,),
         "relation_histogram": relation, "termination_histogram": term_hist, "outcome_histogram": {"%s/%s" % k: v for k, v in out_hist.items()},
-        "value_code_histogram": {str(k): v for k, v in codes_hist.items()}, "value_checks": total_terms, "exhaustive": True})
+        "value_code_histogram": {str(k): v for k, v in codes_hist.items()}, "value_checks": total_terms, "successful_results_with_non_finite_statistics_judged_directly": ndropped, "exhaustive": True})
     run.samples = [{"meta": c["meta"], "scalar": c["scalar"], "ctor": c["ctor"]} for c in cases[:3]]
     run.assumptions = ["try_inverse succeeds whenever the exact normal matrix is invertible and well-conditioned (otherwise the case is not compared)",
                        "usize is 64 bits"]
